@@ -796,7 +796,7 @@ probability exactly `1/21600`. -/
 section Example
 
 def exR : WLRecipe :=
-  { list := some { words := exWords, unCap := 0 }, length := 3, sep := .recipe (presetSep 1 4 0),
+  { list := some { words := exWords, unCap := 0 }, length := 3, sepFunc := some (.recipe (presetSep 1 4 0)),
     capitalize := "random" }
 
 example (τ : List (Token Nat)) :
